@@ -274,6 +274,11 @@ func (l *commitLog) append(segment *segment, ms []byte, entries []*entry) ([]int
 		}
 		offsets[i] = entry.Offset
 	}
+	if verifhook.Enabled {
+		if err := verifhook.Point("append.beforeWrite"); err != nil {
+			return nil, err
+		}
+	}
 	if err := segment.WriteMessageSet(ms, entries); err != nil {
 		return nil, err
 	}
